@@ -480,7 +480,8 @@ public:
         histogram sub_h;
         std::for_each(base_t::begin(), base_t::end(), [&](value_t const& k) {
             auto tmp_key = detail::tuple_to_tuple(k.first, seq2{});
-            if (low_key <= tmp_key && tmp_key <= high_key)
+            // every selected axis has to lie in its own [low, high] (tuple operator<= is lexicographic)
+            if (detail::tuple_compare(low_key, tmp_key) && detail::tuple_compare(tmp_key, high_key))
                 sub_h[k.first] += base_t::operator[](k.first);
         });
         return sub_h;
